@@ -92,6 +92,7 @@ type Runner struct {
 	Fatal   error
 	sstN    int
 	Listener *pebble.EventListener
+	Crash    *crashCtl // crash enumeration (nil outside the crash engine)
 }
 
 func (r *Runner) MakeOptions() *pebble.Options {
@@ -476,12 +477,18 @@ func (r *Runner) Exec(e Ev) {
 				return
 			}
 		}
-		if err := r.DB.Apply(b, wo(e.B("sync"))); err != nil {
+		if r.Cfg.DisableWAL {
+			e["sync"] = false // nothing acknowledges durability without a WAL
+		}
+		r.begin(e)
+		err := r.DB.Apply(b, wo(e.B("sync")))
+		if err != nil {
+			r.end(nil)
 			r.fail(errors.Wrap(err, "apply"))
 			return
 		}
+		r.end(e)
 		b.Close()
-		r.T.Emit(e)
 		r.afterWrite()
 	case "ingest", "ingestexcise":
 		var paths []string
@@ -494,28 +501,34 @@ func (r *Runner) Exec(e Ev) {
 			}
 			paths = append(paths, p)
 		}
+		out := Ev{"op": e.S("op"), "ops": e["ops"], "sync": !r.Cfg.DisableWAL}
+		if e.S("op") == "ingestexcise" {
+			out["a"], out["b"] = e.I("a"), e.I("b")
+		}
 		var err error
+		r.begin(out)
 		if e.S("op") == "ingest" {
 			err = r.DB.Ingest(ctx, paths)
 		} else {
 			_, err = r.DB.IngestAndExcise(ctx, paths, nil, nil, pebble.KeyRange{Start: u.Key(e.I("a")), End: u.Key(e.I("b"))})
 		}
 		if err != nil {
+			r.end(nil)
 			r.fail(errors.Wrap(err, e.S("op")))
 			return
 		}
-		out := Ev{"op": e.S("op"), "ops": e["ops"], "sync": true}
-		if e.S("op") == "ingestexcise" {
-			out["a"], out["b"] = e.I("a"), e.I("b")
-		}
-		r.T.Emit(out)
+		r.end(out)
 		r.afterWrite()
 	case "excise":
-		if err := r.DB.Excise(ctx, pebble.KeyRange{Start: u.Key(e.I("a")), End: u.Key(e.I("b"))}); err != nil {
+		out := Ev{"op": "excise", "a": e.I("a"), "b": e.I("b"), "sync": !r.Cfg.DisableWAL}
+		r.begin(out)
+		err := r.DB.Excise(ctx, pebble.KeyRange{Start: u.Key(e.I("a")), End: u.Key(e.I("b"))})
+		if err != nil {
+			r.end(nil)
 			r.fail(errors.Wrap(err, "excise"))
 			return
 		}
-		r.T.Emit(Ev{"op": "excise", "a": e.I("a"), "b": e.I("b"), "sync": true})
+		r.end(out)
 		r.afterWrite()
 	case "get":
 		res, err := r.get(e.I("src"), e.I("k"))
@@ -682,6 +695,9 @@ func (r *Runner) maint(kind string) {
 		if err == nil {
 			r.T.Emit(Ev{"op": "maint", "kind": kind})
 			r.T.Emit(Ev{"op": "durable"})
+			if r.Crash != nil {
+				r.Crash.afterReturn()
+			}
 			return
 		}
 	case "compact":
@@ -711,6 +727,9 @@ func (r *Runner) maint(kind string) {
 // afterWrite forces structure according to the configuration.
 func (r *Runner) afterWrite() {
 	r.Steps++
+	if r.Crash != nil {
+		r.Crash.afterReturn()
+	}
 	n := r.Cfg.MaintEvery
 	if n == 0 || r.Fatal != nil {
 		return
